@@ -60,6 +60,36 @@ def emit(chk, name, c, timeout=400, simulate=None, seed=None):
     return nd, n
 
 
+def emit_sim(chk, name, c, num, seed, min_frames=10, depth=900, timeout=1500):
+    """Long behaviours by random walks of TLC (-simulate): the peer produces at least min_frames frames and closes, then the
+    reader runs with arbitrary segmentation / errors / pending / cancellation / user writes until it has observed the closure.
+    The model's invariants are evaluated along every walk; every finished walk is printed for replay."""
+    c = dict(c)
+    c.update(EmSmallFills="= 9999")
+    cfg = write_cfg(name, "EmitSpec", c, invariants=["InOrder", "NoLoss", "FramingInv", "BufferInv", "PongsOk", "WritesOk", "OutContig", "EmitInv"],
+                    action_constraint="StopWhenFinished")
+    r = tlc("MC_Conn", cfg, name, workers=1, env={"EMIT": "1", "EMIT_ANY": "1", "SIM_MIN": str(min_frames)}, timeout=timeout, coverage=False,
+            simulate=f"num={num}", seed=seed, depth=depth)
+    if r.violated:
+        raise ToolError(f"model {name} violates {r.violated} along a random walk (see {r.out_path})")
+    nd = os.path.join(WORK, name + ".ndjson")
+    n = extract_emitted(r.out_path, nd)
+    # simulation prints "The number of states generated: n"
+    with open(r.out_path, errors="replace") as f:
+        for line in f:
+            if line.startswith("The number of states generated:"):
+                r.generated = r.distinct = int(line.split(":")[1].strip())
+    chk.add_tlc(name, r)
+    log(f"[tlc] {name}: {n} random walks of >= {min_frames} frames emitted ({r.generated} states, {r.wall:.0f}s)")
+    if n < num // 2:
+        raise ToolError(f"{name}: only {n} of {num} random walks finished (depth too small?)")
+    try:
+        os.remove(r.out_path)
+    except OSError:
+        pass
+    return nd, n
+
+
 def replay(chk, nd, seed):
     """spec -> impl: every behaviour is executed on the real Framed (both size modes)."""
     outp = nd + ".replay.out"
@@ -174,6 +204,12 @@ def check_C05(chk):
     nd, n = emit(chk, "c05_emit_short", consts(MaxFrames="= 2", Classes="<- ClsShort", Verifies="<- GateOn",
                                                FrameOK="<- FrameReal", EmSmallFills="= 1", EmSizes="<- S134"))
     replay(chk, nd, chk.seed + 2)
+    # long behaviours (>= 10 frames of 4..20 bytes, truncation, 2 errors, pending, cancellation, 2 user writes) by random walks
+    nd, n = emit_sim(chk, "c05_sim", consts(MaxFrames="= 14", Lens="<- L48_12_20", Classes="<- ClsStream", FrameOK="<- FrameReal", MaxErr="= 2",
+                                            MaxPending="= 2", MaxCancel="= 2", MaxTimeout="= 1", MaxWrites="= 2", WLens="<- W48", Truncation="= TRUE",
+                                            EmSizes="<- S13458", EmPong="<- S13", EmWacc="<- S13"),
+                     num=1500 if thorough else 60, seed=chk.seed)
+    replay(chk, nd, chk.seed + 5)
     # impl -> spec: long sessions (>> 6120 bytes of traffic), all transports accept whole writes here (C07 covers partial)
     rounds = 6 if thorough else 2
     for i in range(rounds):
@@ -295,6 +331,12 @@ def check_C19(chk):
                                            EmSmallFills="= 0", EmPong="<- S13" if thorough else "<- S1", EmWacc="<- S13" if thorough else "<- None"),
                  timeout=1500)
     replay(chk, nd, chk.seed + 1)
+    # long behaviours with many cancellations by random walks (keep-alive heavy)
+    nd, n = emit_sim(chk, "c19_sim", consts(MaxFrames="= 12", Lens="<- L48", Classes="<- ClsPong", Flavors="<- OnlyTokio", Verifies="<- GateOn",
+                                            FrameOK="<- FrameReal", MaxPending="= 4", MaxCancel="= 6", MaxTimeout="= 1", MaxWrites="= 2", WLens="<- W48",
+                                            EmSizes="<- S134", EmPong="<- S13", EmWacc="<- S13"),
+                     num=1500 if thorough else 60, seed=chk.seed, min_frames=8)
+    replay(chk, nd, chk.seed + 6)
     for i in range(4 if thorough else 1):
         p, info = gen_trace(f"c19_trace{i}", chk.seed * 100 + i, sessions=8, frames=150, flavor="tokio", cancels=True, writes=True,
                             extra=["--kaheavy", "1"])
